@@ -154,6 +154,7 @@ var (
 	selRand         Rand // choice among the ready cases of a select
 	atomicDemotions int
 	slotPressure    bool
+	atomicSeen      int64
 	sandwichSlot    int32 = -1
 	sandwichLeft    int
 	highPrio        int64
@@ -826,6 +827,7 @@ func After[T any](site int32, v T) T {
 //
 //go:norace
 func YieldAtomic(site int32) {
+	atomicSeen++
 	if !active || noPreempt > 0 {
 		return
 	}
@@ -878,6 +880,12 @@ func YieldAtomic(site int32) {
 		slowYield(site)
 	}
 }
+
+// AtomicSeen counts the atomic yield points passed since process start, whether or not
+// the scheduler was active (the driver uses it to learn which checkers touch lock-free code).
+//
+//go:norace
+func AtomicSeen() int64 { return atomicSeen }
 
 // NoPreempt brackets a region in which the running task keeps the baton.
 //
